@@ -111,6 +111,17 @@ class PtrDomain(Domain):
                     targets = tg
         else:
             targets = {key}
+        if any(t in self.eq_grow or t in self.eq_shuffle for t in targets):
+            # an address inside the event queue's storage handed to a function that can move or reshuffle that
+            # storage: the callee works through a pointer that its own scheduling invalidates
+            for a in args:
+                body = a[1:] if a.startswith("&") else a
+                mm = ORIGIN.match(body)
+                if mm and mm.group(2).lstrip("&") == "event_queue" and (mm.end() == len(body) or a.startswith("&")):
+                    self.out["findings"].append(("R-C10-1", self.root.name, "interior-pointer-passed:%s" % flow.cur_func().name,
+                                                 "'%s' points into the event queue's storage and is passed to %s, which may "
+                                                 "schedule or cancel events and thereby move or overwrite that storage while "
+                                                 "using it" % (a[:100], name or "an indirect callee"), where))
         if any(t in self.eq_grow for t in targets):
             self._stale(flow, s, "event_queue", ("cmi_hashheap_dequeue", "cmi_hashheap_item", "cmi_hashheap_peek_item", "heap"),
                         "%s at %s, which may schedule events" % (name or "an indirect call", where))
